@@ -58,11 +58,22 @@ void run_container(C& c, hx::Desc& d, const char* cname) {
     }
     d.publish();
     std::vector<InsRec> ins;
-    // prefill from a disjoint key range (forces bucket-table doublings / gives the skip list some height)
-    for (int i = 0; i < prefill; ++i) {
-        auto r = c.insert(make_val((const V*)nullptr, 1000 + i, 900000 + i));
-        ins.push_back({1000 + i, 900000 + i, r.second, id_of(*r.first), 0, 0});
+    // history of the container before the concurrent part ("configurations"): filled directly, or filled elsewhere and
+    // swapped in (sequentially) while this container has never held an element / was used and cleared
+    int history = (int)sim::draw(4, "history");     // 0,1: direct; 2: swap into never-used; 3: swap into cleared
+    d.add(hx::fmt("history=%s", history < 2 ? "direct" : history == 2 ? "swapped-into-never-used" : "swapped-into-cleared")); d.publish();
+    {
+        C other;
+        C& fill = history >= 2 ? other : c;
+        if (history == 3) { c.insert(make_val((const V*)nullptr, 5000, 5000)); c.clear(); }
+        // prefill from a disjoint key range (forces bucket-table doublings / gives the skip list some height)
+        for (int i = 0; i < prefill; ++i) {
+            auto r = fill.insert(make_val((const V*)nullptr, 1000 + i, 900000 + i));
+            ins.push_back({1000 + i, 900000 + i, r.second, id_of(*r.first), 0, 0});
+        }
+        if (history >= 2) { c.swap(other); SIM_CHECK(other.empty() && c.size() == (size_t)prefill, "oracle:swap", "after swap the container holds %zu elements, %d expected", c.size(), prefill); }
     }
+    for (int i = 0; i < prefill; ++i) SIM_CHECK(c.find(make_key((const KeyT*)nullptr, 1000 + i)) != c.end(), "oracle:find-after-insert", "prefilled key %d cannot be found before the concurrent part (history=%d)", 1000 + i, history);
     auto check_traversal = [&](uint64_t t_begin, const std::vector<std::pair<int, int>>& seen, const char* who) {
         std::set<int> ids;
         for (size_t i = 0; i < seen.size(); ++i) {
